@@ -1051,8 +1051,8 @@ impl<R: std::io::Read + std::io::Seek> FlacChannelReader<R> {
             sample,
         )?;
 
-        // seeking invalidates the current samples consumed
-        self.consumed = 0;
+        // seeking invalidates the currently buffered frame
+        self.consumed = self.decoder.buf.pcm_frames();
 
         // needed channel-independent samples
         while sample > pos {
